@@ -195,3 +195,36 @@ PROPS["C08"] = {
     "level_note": "Bounds: template dictionary and data shapes in evidence. Trusted: go/ssa, gosym heap model (slices keep Go's capacity/aliasing behaviour), z3.",
     "technique": "symbolic execution of the go/ssa form with a frozen-memory monitor (frame condition) and SMT-decided output equality; findings confirmed natively by a reflect-based deep digest",
 }
+
+# ---------------------------------------------------------------- C09
+PROPS["C09"] = {
+    "viol_filter": r"^(?!C13:)",
+    "jobs": [
+        Job("soyhtml", "H_pure", "0..2,0..1,false", workers=8),
+        Job("soyhtml", "H_pure", "0..2,0..1,true", workers=8),
+        Job("soyjs", "H_jsPure", "0..2,false", workers=2),
+        Job("soyjs", "H_jsPure", "0..2,true", workers=2),
+    ],
+    "bounds": "as C08 for Tofu rendering (3 template sets, symbolic data, with/without obligatory directive), plus soyjs.Write of every file of a two-file bundle under both formatters; in every explored execution all memory reachable from the compiled registry, the caller's data and every package-level variable of the soy packages is frozen",
+    "outside": "the interleavings themselves (no schedule is explored and the race detector is not a solver): the property is decided through the sufficient condition 'concurrent calls only read shared memory'; the documented-unsafe Bundle.recompiler; math/rand's internal lock; goroutines inside one parse (lexer/parser hand-off over a channel) are exercised under the engine's scheduler by C05/C18",
+    "assumptions": ["Go memory model: calls that only read shared memory and write memory they allocated themselves are race-free and compute what they compute alone"],
+    "level_text": "Bounded symbolic model checking of a sufficient non-interference condition: during Tofu rendering and JavaScript generation no store reaches memory that another call could see (registry, data, package-level registries), established on every path with symbolic data.",
+    "level_note": "Schedules are not explored; see outside_bounds. Trusted: go/ssa, gosym heap model, z3.",
+    "technique": "symbolic execution of the go/ssa form with a frozen-memory monitor over all shared state (sufficient condition for race freedom); no interleaving exploration",
+}
+
+# ---------------------------------------------------------------- C13
+PROPS["C13"] = {
+    "jobs": [
+        Job("soyjs", "H_jsOrder", "0..2,-1..3,false", workers=8, timeout=300),
+        Job("soyjs", "H_jsOrder", "0..2,-1..3,true", workers=8, timeout=300),
+        Job(".", "H_bundle", "0..6,0", workers=8, timeout=400, per_map_site=r"^(ast|data|parse|parsepasses|soyhtml|soyjs|soymsg|template|bundle|globals)"),
+        Job(".", "H_bundle", "0..6,1..5", workers=8, timeout=400, note="file insertion orders"),
+    ],
+    "bounds": "real soy.NewBundle().AddTemplateString(..).AddGlobalsMap(..).Compile() + Tofu rendering + soyjs.Write (ES5 and ES6) for 7 bundles (valid with messages/globals/map literals/cross-file calls; rejected by the data-ref checker, the parser, the globals pass; two independent errors; duplicate template name); every map-range site reached in the soy packages is given an arbitrary iteration order, one site at a time (all permutations up to 5 keys; for larger maps an arbitrary key first and an arbitrary key last); all 6 insertion orders of up to 3 files",
+    "outside": "two or more loops permuted simultaneously (order dependence that needs a particular combination); bundles outside the dictionary; file-system loading and the watcher",
+    "assumptions": ["Go's randomised map iteration is modelled as an arbitrary permutation chosen through solver-visible choice variables; one-site-at-a-time argument of DESIGN 2.6"],
+    "level_text": "Bounded symbolic model checking with the environment's nondeterminism (map iteration order, file insertion order) as the symbolic input: every result of compile, render and generate is compared with the reference run for every order within the bound.",
+    "level_note": "Bounds in evidence. Trusted: go/ssa, gosym map model, z3.",
+    "technique": "symbolic execution of the go/ssa form with map iteration order as nondeterministic choice variables (one loop at a time), differential against the insertion-order run",
+}
